@@ -178,7 +178,7 @@ def step (d : DState) (c : Case) : DState × String × String :=
     | some h, some b =>
       let s2 := trackOpen d.s (keyOf h b) b
       let out := "slot=" ++ toString d.slots.length ++ " active=" ++ toString (activeConnections s2)
-      let want := "slot=" ++ toString d.slots.length ++ " active=" ++ toString (openCount d + 1)
+      let want := "slot=" ++ toString d.islots.length ++ " active=" ++ toString (openCount d + 1)
       ({ d with s := s2, slots := d.slots ++ [({ key := keyOf h b, backend := b, kind := .track } : Slot)],
                 islots := d.islots ++ [(true, true)] }, out,
         if c.impl = want then "ok" else "viol:active-count")
@@ -187,7 +187,7 @@ def step (d : DState) (c : Case) : DState × String × String :=
     | some b =>
       let s2 := { d.s with counters := b :: d.s.counters }
       let out := "slot=" ++ toString d.slots.length ++ " active=" ++ toString (activeConnections s2)
-      let want := "slot=" ++ toString d.slots.length ++ " active=" ++ toString (openCount d)
+      let want := "slot=" ++ toString d.islots.length ++ " active=" ++ toString (openCount d)
       ({ d with s := s2, slots := d.slots ++ [({ key := [], backend := b, kind := .inc } : Slot)],
                 islots := d.islots ++ [(false, true)] }, out,
         if c.impl = want then "ok" else "viol:active-count")
